@@ -42,13 +42,16 @@ def disable_hooks():
         pass
 
 
-def load_events(path):
+def load_events(path, cid_loading=False):
+    """Session events (default) or the events of CID loading (`cid_*`) of an event log."""
     events = []
     with open(path, encoding="utf-8") as trace_file:
         for line in trace_file:
             line = line.strip()
             if line:
-                events.append(json.loads(line))
+                event = json.loads(line)
+                if event["ev"].startswith("cid_") == cid_loading:
+                    events.append(event)
     return events
 
 
@@ -311,3 +314,97 @@ def _brief(event):
 def _check_names(cid_events):
     """Names of the checks in declaration order, as logged with the open event."""
     return cid_events[0].get("check_names") or []
+
+
+# ------------------------------------------------------------------ traces of CID loading (CidLoadTrace.tla)
+KNOWN_FORMATS = ("delimited", "csv", "fixed", "excel", "ods")
+
+
+def transcribe_cid_loads(events):
+    """Events of CID loading -> list of traces [{events, done}] (one per Cid.read call) in the vocabulary of CidLoadTrace.tla."""
+    groups = {}
+    for event in events:
+        groups.setdefault((event.get("pid", 0), event["cidload"]), []).append(event)
+    traces = []
+    for key in sorted(groups):
+        group = sorted(groups[key], key=lambda e: e["seq"])
+        names = {}
+        descriptions = {}
+        out = []
+        pending = None
+        done = False
+        for event in group:
+            if event["ev"] == "cid_row_begin":
+                cells = event.get("cells") or []
+                marker = cells[0].lower().strip() if cells else None
+                if not cells:
+                    kind = "blank"
+                elif marker == "":
+                    kind = "comment"
+                elif marker in ("d", "f", "c"):
+                    kind = marker.upper()
+                else:
+                    kind = "junk"
+                second = cells[1] if len(cells) > 1 else ""
+                third = cells[2] if len(cells) > 2 else ""
+                row = {"ev": "row", "k": kind, "line": event["line"], "ended": False, "isformat": False, "val": "", "id": 0,
+                       "nfields": 0, "nchecks": 0}
+                if kind == "D":
+                    row["isformat"] = second.lower() == "format"
+                    if row["isformat"]:
+                        row["val"] = third.lower() if third.lower() in KNOWN_FORMATS else "unknownfmt"
+                elif kind == "F":
+                    row["id"] = names.setdefault(second.strip(), len(names) + 1)
+                elif kind == "C":
+                    row["id"] = descriptions.setdefault(second, len(descriptions) + 1)
+                pending = row
+                out.append(row)
+            elif event["ev"] == "cid_row_end":
+                if pending is not None:
+                    pending["ended"] = True
+                    pending["nfields"] = event["nfields"]
+                    pending["nchecks"] = event["nchecks"]
+                    pending = None
+            elif event["ev"] == "cid_done":
+                out.append({"ev": "done", "k": "", "line": event["line"], "ended": True, "isformat": False, "val": "", "id": 0,
+                            "nfields": event["nfields"], "nchecks": event["nchecks"]})
+                done = True
+        traces.append({"events": out, "done": done})
+    return traces
+
+
+def validate_cid_loads(report, trace_path, label):
+    """Validate every recorded Cid.read against CidLoadTrace.tla; returns (accepted, rejected list)."""
+    traces = transcribe_cid_loads(load_events(trace_path, cid_loading=True))
+    traces = [t for t in traces if t["events"]]
+    if not traces:
+        return 0, []
+    folder = core.workdir("cidtrace")
+    try:
+        trace_file = os.path.join(folder, "traces.json")
+        with open(trace_file, "w", encoding="utf-8") as out:
+            json.dump(traces, out)
+        module = os.path.join(folder, "CidTraceMC.tla")
+        with open(module, "w", encoding="utf-8") as out:
+            out.write("---- MODULE CidTraceMC ----\nEXTENDS CidLoadTrace\nNone0 == {}\n====\n")
+        cfg = os.path.join(folder, "CidTraceMC.cfg")
+        with open(cfg, "w", encoding="utf-8") as out:
+            out.write("INIT TInit\nNEXT TNext\nCONSTANTS\n  Formats <- None0\n  MaxFields = 0\n  MaxChecks = 0\n  FTags <- None0\n"
+                      "  CTags <- None0\n  Decorations <- None0\nINVARIANT Progress\nCHECK_DEADLOCK FALSE\n")
+        result = core.tlc(module, cfg, env={"TRACE_FILE": trace_file}, coverage=False, tag="cidtracetlc", workers=8)
+        report.add_tlc("CidLoadTrace %s: %d recorded Cid.read calls" % (label, len(traces)), result)
+        furthest = {}
+        for tid, position in result.by_tag("AT"):
+            furthest[tid] = max(furthest.get(tid, 0), position)
+        accepted = 0
+        rejected = []
+        for index, trace in enumerate(traces, 1):
+            if furthest.get(index, 0) == len(trace["events"]) + 2:
+                accepted += 1
+            else:
+                reached = min(furthest.get(index, 1), len(trace["events"]))
+                rejected.append({"events": len(trace["events"]), "matched_prefix": reached - 1,
+                                 "no_action_explains": trace["events"][reached - 1] if trace["events"] else None, "trace": trace})
+        return accepted, rejected
+    finally:
+        core.cleanup(folder)
